@@ -41,26 +41,27 @@ theorem NodeOK.ext {cfg : Cfg} {s s' : Ledger} {nd : NodeS} (h : Ext s s') : Nod
 
 /-- what an event may refer to: `free` reaches the pool only with pool blocks (and never above `mallocMax`);
 netpoll never writes caller memory -/
-def EvOK (cfg : Cfg) (s : Ledger) : Ev → Prop
+def EvOK (cfg : Cfg) (st : Bool) (s : Ledger) : Ev → Prop
   | .free b cap => cap ≤ cfg.mallocMax ∧ ∃ bl, s.blocks[b]? = some bl ∧ bl.kind = .pool
-  | .write b _ _ => ∃ bl, s.blocks[b]? = some bl ∧ bl.kind ≠ .caller
+  | .write b _ _ => st = true → ∃ bl, s.blocks[b]? = some bl ∧ bl.kind ≠ .caller
   | .malloc _ => True
 
-theorem EvOK.ext {cfg : Cfg} {s s' : Ledger} {e : Ev} (h : Ext s s') : EvOK cfg s e → EvOK cfg s' e := by
+theorem EvOK.ext {cfg : Cfg} {st : Bool} {s s' : Ledger} {e : Ev} (h : Ext s s') : EvOK cfg st s e → EvOK cfg st s' e := by
   cases e with
   | free b cap =>
     rintro ⟨h1, bl, hb, hk⟩
     obtain ⟨bl', h2, h3, _⟩ := h b bl hb
     exact ⟨h1, bl', h2, by rw [h3]; exact hk⟩
   | write b lo hi =>
-    rintro ⟨bl, hb, hk⟩
+    intro hw hst
+    obtain ⟨bl, hb, hk⟩ := hw hst
     obtain ⟨bl', h2, h3, _⟩ := h b bl hb
     exact ⟨bl', h2, by rw [h3]; exact hk⟩
   | malloc b => exact id
 
-structure Core (cfg : Cfg) (s : Ledger) : Prop where
+structure Core (cfg : Cfg) (st : Bool) (s : Ledger) : Prop where
   node : ∀ (i : Nat) (nd : NodeS), s.nodes[i]? = some nd → NodeOK cfg s nd
-  log : ∀ e ∈ s.log, EvOK cfg s e
+  log : ∀ e ∈ s.log, EvOK cfg st s e
 
 /-- a cache block of capacity `cp`: memory that may go to `free` as a whole -/
 def CacheOK (cfg : Cfg) (s : Ledger) (blk cp : Nat) : Prop :=
@@ -92,15 +93,15 @@ theorem BufOK.of_caches_eq {cfg : Cfg} {s : Ledger} {b b' : Buf} (hb : BufOK cfg
 theorem BufOK.empty {cfg : Cfg} {s : Ledger} {b : Buf} (h1 : b.caches = []) (h2 : b.cachePeek = none) : BufOK cfg s b :=
   ⟨fun blk h => (by rw [h1] at h; cases h), fun blk l cp h => (by rw [h2] at h; cases h)⟩
 
-theorem Core.of_eq {cfg : Cfg} {s s' : Ledger} (hc : Core cfg s) (hn : s'.nodes = s.nodes) (hb : s'.blocks = s.blocks)
-    (hl : s'.log = s.log) : Core cfg s' := by
+theorem Core.of_eq {cfg : Cfg} {st : Bool} {s s' : Ledger} (hc : Core cfg st s) (hn : s'.nodes = s.nodes) (hb : s'.blocks = s.blocks)
+    (hl : s'.log = s.log) : Core cfg st s' := by
   have he : Ext s s' := Ext.of_blocks_eq hb
   exact ⟨fun i nd h => (hc.node i nd (by simpa [hn] using h)).ext he, fun e h => (hc.log e (by simpa [hl] using h)).ext he⟩
 
 /-! ### primitives -/
 
-theorem setNode_core {cfg : Cfg} {s : Ledger} {i : Nat} {nd : NodeS} (hc : Core cfg s) (hn : NodeOK cfg s nd) :
-    Core cfg (s.setNode i nd) := by
+theorem setNode_core {cfg : Cfg} {st : Bool} {s : Ledger} {i : Nat} {nd : NodeS} (hc : Core cfg st s) (hn : NodeOK cfg s nd) :
+    Core cfg st (s.setNode i nd) := by
   refine ⟨fun j nd' h => ?_, hc.log⟩
   simp only [Ledger.setNode, List.getElem?_set] at h
   split at h
@@ -118,15 +119,15 @@ theorem NodeOK.of_same {cfg : Cfg} {s : Ledger} {nd nd' : NodeS} (h : NodeOK cfg
     (h1 : nd'.unmanaged = nd.unmanaged) (h2 : nd'.block = nd.block) (h3 : nd'.cap = nd.cap) : NodeOK cfg s nd' := by
   intro hu b hb; rw [h3]; exact h (h1 ▸ hu) b (h2 ▸ hb)
 
-theorem emit_core {cfg : Cfg} {s : Ledger} {e : Ev} (hc : Core cfg s) (he : EvOK cfg s e) : Core cfg (s.emit e) := by
+theorem emit_core {cfg : Cfg} {st : Bool} {s : Ledger} {e : Ev} (hc : Core cfg st s) (he : EvOK cfg st s e) : Core cfg st (s.emit e) := by
   refine ⟨hc.node, fun e' h => ?_⟩
   simp only [Ledger.emit, List.mem_append, List.mem_singleton] at h
   rcases h with h | h
   · exact hc.log e' h
   · exact h ▸ he
 
-theorem addView_core {cfg : Cfg} {s : Ledger} {blk : Option Nat} {lo hi o : Nat} {p : Bool} (hc : Core cfg s) :
-    Core cfg (s.addView blk lo hi o p) := by
+theorem addView_core {cfg : Cfg} {st : Bool} {s : Ledger} {blk : Option Nat} {lo hi o : Nat} {p : Bool} (hc : Core cfg st s) :
+    Core cfg st (s.addView blk lo hi o p) := by
   unfold Ledger.addView; split
   · exact hc
   · split
@@ -139,7 +140,7 @@ theorem addView_blocks (s : Ledger) (blk : Option Nat) (lo hi o : Nat) (p : Bool
   · rfl
   · split <;> rfl
 
-theorem endViews_core {cfg : Cfg} {s : Ledger} {o : Nat} (hc : Core cfg s) : Core cfg (s.endViews o) :=
+theorem endViews_core {cfg : Cfg} {st : Bool} {s : Ledger} {o : Nat} (hc : Core cfg st s) : Core cfg st (s.endViews o) :=
   hc.of_eq rfl rfl rfl
 
 theorem allocBlock_ext (s : Ledger) (k : Kind) (c : Nat) : Ext s (s.allocBlock k c).1 := by
@@ -155,7 +156,7 @@ theorem allocBlock_get (s : Ledger) (k : Kind) (c : Nat) :
     ∃ bl, (s.allocBlock k c).1.blocks[(s.allocBlock k c).2]? = some bl ∧ bl.kind = k ∧ bl.cap = c := by
   cases k <;> simp [Ledger.allocBlock]
 
-theorem allocBlock_core {cfg : Cfg} {s : Ledger} (k : Kind) (c : Nat) (hc : Core cfg s) : Core cfg (s.allocBlock k c).1 := by
+theorem allocBlock_core {cfg : Cfg} {st : Bool} {s : Ledger} (k : Kind) (c : Nat) (hc : Core cfg st s) : Core cfg st (s.allocBlock k c).1 := by
   have he := allocBlock_ext s k c
   refine ⟨fun i nd h => ?_, fun e h => ?_⟩
   · have : s.nodes[i]? = some nd := by cases k <;> simpa [Ledger.allocBlock] using h
@@ -169,9 +170,9 @@ theorem allocBlock_core {cfg : Cfg} {s : Ledger} (k : Kind) (c : Nat) (hc : Core
     · exact (hc.log e (by simpa [Ledger.allocBlock] using h)).ext he
 
 /-- the general way to re-establish `Core`: blocks extended, every node / event is an old one or fine now -/
-theorem Core.step {cfg : Cfg} {s s' : Ledger} (hc : Core cfg s) (he : Ext s s')
+theorem Core.step {cfg : Cfg} {st : Bool} {s s' : Ledger} (hc : Core cfg st s) (he : Ext s s')
     (hn : ∀ (i : Nat) (nd : NodeS), s'.nodes[i]? = some nd → s.nodes[i]? = some nd ∨ NodeOK cfg s' nd)
-    (hl : ∀ e ∈ s'.log, e ∈ s.log ∨ EvOK cfg s' e) : Core cfg s' := by
+    (hl : ∀ e ∈ s'.log, e ∈ s.log ∨ EvOK cfg st s' e) : Core cfg st s' := by
   refine ⟨fun i nd h => ?_, fun e h => ?_⟩
   · rcases hn i nd h with h1 | h1
     · exact (hc.node i nd h1).ext he
@@ -180,8 +181,8 @@ theorem Core.step {cfg : Cfg} {s s' : Ledger} (hc : Core cfg s) (he : Ext s s')
     · exact (hc.log e h1).ext he
     · exact h1
 
-theorem mallocMem_spec {cfg : Cfg} {s : Ledger} (c : Nat) (hc : Core cfg s) :
-    Ext s (s.mallocMem cfg c).1 ∧ Core cfg (s.mallocMem cfg c).1 ∧
+theorem mallocMem_spec {cfg : Cfg} {st : Bool} {s : Ledger} (c : Nat) (hc : Core cfg st s) :
+    Ext s (s.mallocMem cfg c).1 ∧ Core cfg st (s.mallocMem cfg c).1 ∧
     (s.mallocMem cfg c).1.nodes = s.nodes ∧
     ∃ bl : Block, (s.mallocMem cfg c).1.blocks[(s.mallocMem cfg c).2.1]? = some bl ∧ bl.cap = (s.mallocMem cfg c).2.2 ∧
       (bl.kind = .pool ∨ (bl.kind = .gc ∧ (s.mallocMem cfg c).2.2 > cfg.mallocMax)) := by
@@ -244,8 +245,8 @@ theorem freeMem_ext (cfg : Cfg) (s : Ledger) (blk : Option Nat) (cap : Nat) : Ex
 theorem freeMem_nodes (cfg : Cfg) (s : Ledger) (blk : Option Nat) (cap : Nat) : (s.freeMem cfg blk cap).nodes = s.nodes := by
   rcases freeMem_cases cfg s blk cap with h | ⟨b, bl, _, _, _, h⟩ <;> rw [h]
 
-theorem freeMem_core {cfg : Cfg} {s : Ledger} {blk : Option Nat} {cap : Nat} (hc : Core cfg s)
-    (hb : ∀ b, blk = some b → BlkOK cfg s b cap) : Core cfg (s.freeMem cfg blk cap) := by
+theorem freeMem_core {cfg : Cfg} {st : Bool} {s : Ledger} {blk : Option Nat} {cap : Nat} (hc : Core cfg st s)
+    (hb : ∀ b, blk = some b → BlkOK cfg s b cap) : Core cfg st (s.freeMem cfg blk cap) := by
   have he := freeMem_ext cfg s blk cap
   refine hc.step he (fun i nd h => Or.inl (by simpa [freeMem_nodes] using h)) (fun e h => ?_)
   rcases freeMem_cases cfg s blk cap with h' | ⟨b, bl, hblk, hcap, hbl, h'⟩
@@ -276,8 +277,8 @@ theorem newNode_cases (cfg : Cfg) (s : Ledger) (size : Nat) :
   · simp only [h, if_false]
     exact ⟨trivial, Or.inr ⟨fun h' => h h', _, rfl⟩⟩
 
-theorem newNode_spec {cfg : Cfg} {s : Ledger} (size : Nat) (hc : Core cfg s) :
-    Ext s (s.newNode cfg size).1 ∧ Core cfg (s.newNode cfg size).1 := by
+theorem newNode_spec {cfg : Cfg} {st : Bool} {s : Ledger} (size : Nat) (hc : Core cfg st s) :
+    Ext s (s.newNode cfg size).1 ∧ Core cfg st (s.newNode cfg size).1 := by
   rcases (newNode_cases cfg s size).2 with ⟨_, h⟩ | ⟨_, c, h⟩
   · rw [h]
     refine ⟨Ext.of_blocks_eq rfl, hc.step (Ext.of_blocks_eq rfl) (fun i nd h => ?_) (fun e h => Or.inl h)⟩
@@ -299,8 +300,8 @@ theorem NodeOK.of_noblock {cfg : Cfg} {s : Ledger} {nd : NodeS} (h : nd.block = 
 
 theorem setNode_ext (s : Ledger) (i : Nat) (nd : NodeS) : Ext s (s.setNode i nd) := Ext.of_blocks_eq rfl
 
-theorem releaseSelf_spec {cfg : Cfg} {s s' : Ledger} {i : Nat} (hc : Core cfg s) (h : s.releaseSelf cfg i = some s') :
-    Ext s s' ∧ Core cfg s' := by
+theorem releaseSelf_spec {cfg : Cfg} {st : Bool} {s s' : Ledger} {i : Nat} (hc : Core cfg st s) (h : s.releaseSelf cfg i = some s') :
+    Ext s s' ∧ Core cfg st s' := by
   unfold Ledger.releaseSelf at h
   cases hn : s.nodes[i]? with
   | none => simp [hn] at h
@@ -314,15 +315,15 @@ theorem releaseSelf_spec {cfg : Cfg} {s s' : Ledger} {i : Nat} (hc : Core cfg s)
       · simp only [hu, if_true]
         exact ⟨setNode_ext _ _ _, setNode_core hc (NodeOK.of_noblock rfl)⟩
       · simp only [hu]
-        have hc' : Core cfg (s.freeMem cfg nd.block nd.cap) :=
+        have hc' : Core cfg st (s.freeMem cfg nd.block nd.cap) :=
           freeMem_core hc (fun b hb => hok (by simpa using hu) b hb)
         exact ⟨(freeMem_ext _ _ _ _).trans (setNode_ext _ _ _), setNode_core hc' (NodeOK.of_noblock rfl)⟩
     · simp only [hr, if_false, Option.some.injEq] at h
       subst h
       exact ⟨setNode_ext _ _ _, setNode_core hc (hok.of_same rfl rfl rfl)⟩
 
-theorem nodeRelease_spec {cfg : Cfg} (fuel : Nat) : ∀ {s s' : Ledger} {i : Nat}, Core cfg s →
-    Ledger.nodeRelease cfg fuel s i = some s' → Ext s s' ∧ Core cfg s' := by
+theorem nodeRelease_spec {cfg : Cfg} {st : Bool} (fuel : Nat) : ∀ {s s' : Ledger} {i : Nat}, Core cfg st s →
+    Ledger.nodeRelease cfg fuel s i = some s' → Ext s s' ∧ Core cfg st s' := by
   induction fuel with
   | zero => intro s s' i _ h; simp [Ledger.nodeRelease] at h
   | succ fuel ih =>
@@ -344,11 +345,11 @@ theorem nodeRelease_spec {cfg : Cfg} (fuel : Nat) : ∀ {s s' : Ledger} {i : Nat
           obtain ⟨e2, c2⟩ := releaseSelf_spec c1 h
           exact ⟨e1.trans e2, c2⟩
 
-theorem release1_spec {cfg : Cfg} {s s' : Ledger} {i : Nat} (hc : Core cfg s) (h : s.release1 cfg i = some s') :
-    Ext s s' ∧ Core cfg s' := nodeRelease_spec _ hc h
+theorem release1_spec {cfg : Cfg} {st : Bool} {s s' : Ledger} {i : Nat} (hc : Core cfg st s) (h : s.release1 cfg i = some s') :
+    Ext s s' ∧ Core cfg st s' := nodeRelease_spec _ hc h
 
-theorem releaseAll_spec {cfg : Cfg} : ∀ (l : List Nat) {s s' : Ledger}, Core cfg s → s.releaseAll cfg l = some s' →
-    Ext s s' ∧ Core cfg s'
+theorem releaseAll_spec {cfg : Cfg} {st : Bool} : ∀ (l : List Nat) {s s' : Ledger}, Core cfg st s → s.releaseAll cfg l = some s' →
+    Ext s s' ∧ Core cfg st s'
   | [], s, s', hc, h => by simp [Ledger.releaseAll] at h; subst h; exact ⟨Ext.refl _, hc⟩
   | i :: rest, s, s', hc, h => by
     unfold Ledger.releaseAll at h
@@ -361,8 +362,8 @@ theorem releaseAll_spec {cfg : Cfg} : ∀ (l : List Nat) {s s' : Ledger}, Core c
       exact ⟨e1.trans e2, c2⟩
 
 /-- `Refer`: the child is unmanaged; parent and origin keep their ownership fields -/
-theorem refer_spec {cfg : Cfg} {s s' : Ledger} {i n c : Nat} (hc : Core cfg s) (h : s.refer cfg i n = some (s', c)) :
-    Ext s s' ∧ Core cfg s' := by
+theorem refer_spec {cfg : Cfg} {st : Bool} {s s' : Ledger} {i n c : Nat} (hc : Core cfg st s) (h : s.refer cfg i n = some (s', c)) :
+    Ext s s' ∧ Core cfg st s' := by
   unfold Ledger.refer at h
   cases hn : s.nodes[i]? with
   | none => simp [hn] at h
